@@ -94,6 +94,8 @@ Lemma partition_parent_full_index_ok : partition_parent_full_index = Some true.
 Proof. vm_compute. reflexivity. Qed.
 Lemma partition_inprocess_parent_ok : partition_inprocess_parent = Some true.
 Proof. vm_compute. reflexivity. Qed.
+Lemma partition_relay_keeps_inherited_ok : partition_relay_keeps_inherited = Some true.
+Proof. vm_compute. reflexivity. Qed.
 
 (** ---- versions (C01 / C03 / C14) ---- *)
 From Memento Require Import Version.Rules Version.RulesProofs Version.Stale Version.StaleProofs.
